@@ -138,6 +138,7 @@ func checkC27(c *vlib.Ctx) {
 		report(c, r)
 	}
 	c.Extra("cases_per_family", fam)
+	bulkFamily(c)
 	if c.Quick() {
 		c.Floor(2500)
 	} else {
